@@ -210,6 +210,12 @@ def run_plan(plan):
             V("valid-state-rejected", "QueryGroups raised %r without any fault" % (sr.exc,), site="groups")
     else:
         addressed = [u for u in units if _addressed(u, dest_kind, t, plan)]
+        if sr.status == "return" and dest_kind in ("short", "int") and not transport and \
+                any(c[4] for c in sr.commands[:2]):
+            # the read of the current membership was lost or garbled: the sequence stops with
+            # DALISequenceError - it does not carry on some other way and report success
+            V("disturbed-read-not-reported", "SetGroups(%s): its membership read was disturbed (%s) but it returned normally "
+              "after %d commands" % (dest_kind, plan["fault"], len(sr.commands)), site=dest_kind)
         if sr.status == "return":
             for u in addressed:
                 if u.groups != want and not (disturbed and dest_kind in ("short", "int")):
